@@ -17,6 +17,7 @@
 import Proofs.Time
 import Proofs.CastInt
 import Proofs.LineTime
+import Proofs.LineTimeMore
 
 namespace Jl.C14
 open Jl Cast
@@ -244,5 +245,52 @@ theorem line_offset_bound_needed (line : Bytes)
         (Template.jlLine LineTime.Demo.env LineTime.Demo.tmpl LineTime.Demo.tmpl line) =
           some "written-text-unreadable" :=
   LineTime.Demo.offset_bound_needed line hline
+
+/-! ### Every descriptor pair of the correspondence check (Proofs/LineTimeMore)
+
+`harnessIns` × `harnessOuts` are the column descriptors the harness pairs for C14 (date-time and
+timestamp formats over no raw type, `time.Time`, and integer / float raw types the cast to which
+fails, so that `NewValue` keeps the `time.Time`). -/
+
+open Jl.Template Jl.LineTime Jl.LineTimeMore Jl.JsonQuote in
+/-- Every pair whose output is not a timestamp: the line is accepted, and the member written
+    parses to the same instant and THE SAME OFFSET — for every `ext`, hence every process zone. -/
+theorem every_pair_keeps_the_offset (ext : Ext) (k : Bytes) (hk : sanitize k = k)
+    (di do_ : Format × Ty) (hi : di ∈ harnessIns) (ho : do_ ∈ harnessOuts)
+    (hts : do_.1 ≠ .timestamp) (line s : Bytes) (t : GoTime)
+    (hline : Json.unmarshal line = (.cons k (.str s) .nil, true))
+    (hp : Time.parseRFC3339 s = some t) (hlo : -86400 < t.off) (hhi : t.off < 86400) :
+    (∃ b, jlLine ⟨genTables, ext⟩ (withCol [] k di.1 di.2) (withCol [] k do_.1 do_.2) line =
+      .ok (b, none)) ∧
+    ∀ b, jlLine ⟨genTables, ext⟩ (withCol [] k di.1 di.2) (withCol [] k do_.1 do_.2) line =
+      .ok (b, none) → SameTimeText k t b :=
+  offset_kept ext k hk di do_ hi ho hts line s t hline hp hlo hhi
+
+open Jl.Template Jl.LineTime Jl.LineTimeMore Jl.JsonQuote in
+/-- Every pair whose output is a timestamp: the member is the integer literal of the instant's
+    Unix second — always written, never rejected, whatever the declared raw type. -/
+theorem every_timestamp_pair_writes_the_second (ext : Ext) (k : Bytes) (hk : sanitize k = k)
+    (di do_ : Format × Ty) (hi : di ∈ harnessIns) (ho : do_ ∈ harnessOuts)
+    (hts : do_.1 = .timestamp) (line s : Bytes) (t : GoTime)
+    (hline : Json.unmarshal line = (.cons k (.str s) .nil, true))
+    (hp : Time.parseRFC3339 s = some t) :
+    (∃ b, jlLine ⟨genTables, ext⟩ (withCol [] k di.1 di.2) (withCol [] k do_.1 do_.2) line =
+      .ok (b, none)) ∧
+    ∀ b, jlLine ⟨genTables, ext⟩ (withCol [] k di.1 di.2) (withCol [] k do_.1 do_.2) line =
+      .ok (b, none) →
+      ∃ body tree, b = body ++ [0x0A] ∧ Json.unmarshal body = (tree, true) ∧
+        LineSpec.lookupJV tree k = some (.num (IntText.formatInt t.sec)) :=
+  timestamp_written ext k hk di do_ hi ho hts line s t hline hp
+
+open Jl.Template Jl.LineTime Jl.LineTimeMore Jl.JsonQuote in
+/-- The oracle of the correspondence check (`c14Violation`, the logic of the harness's
+    `c14LineViolation`) finds nothing on the model's line for every pair of those lists. -/
+theorem oracle_silent_on_every_pair (ext : Ext) (k : Bytes) (hk : sanitize k = k)
+    (di do_ : Format × Ty) (hi : di ∈ harnessIns) (ho : do_ ∈ harnessOuts) (line s : Bytes)
+    (t : GoTime) (hline : Json.unmarshal line = (.cons k (.str s) .nil, true))
+    (hp : Time.parseRFC3339 s = some t) (hlo : -86400 < t.off) (hhi : t.off < 86400) :
+    c14Violation line
+      (jlLine ⟨genTables, ext⟩ (withCol [] k di.1 di.2) (withCol [] k do_.1 do_.2) line) = none :=
+  harness_oracle ext k hk di do_ hi ho line s t hline hp hlo hhi
 
 end Jl.C14
